@@ -366,6 +366,10 @@ def run(tier, seed):
                       "binary": rng.choice(["debug", "debug", "nochecks"] + (["asan", "asan"] if thorough else []))})
     for _ in range(1000 if thorough else 96):
         cases.append({"kind": "pty", "seed": rng.randrange(1 << 30)})
+    # an assignment / export whose value is exactly one quote character (written, or brought in by a reference)
+    for text in ("Qq='\"' ; export Qa=$Qq ; vp_argv ok", "Qq=\"'\" ; export Qa=$Qq", "Qq='\"' ; Qb=$Qq vp_argv ok", "Qa=\"", "export Qa='", "vp_argv x ; Qa=\""):
+        for mode in ("c", "script"):
+            cases.append({"kind": "line", "line": text, "mode": mode, "binary": "debug"})
     # lines with a range far too large to build, as a word of its own
     for text in ("vp_argv {1..2147483647}", "vp_argv x{-2147483648..2147483647}y z", "{2000000000..-2000000000..3}"):
         for mode in ("c", "script"):
